@@ -16,6 +16,16 @@ from common import drv_batch
 MODELLED = ["python", "php", "c", "go", "java", "typescript"]
 
 
+def unmodelled(lang, prog):
+    """renderings the lowering model does not cover (the monitor covers them): string constants with escapes / quotes
+    (the model prints tokens without escaping), interpolated / template strings, compound assignment and increment, and —
+    for Java — multi-level literal-only expressions (the model folds one level)."""
+    sh = c02gen.shapes(prog)
+    if sh & {"special_str", "interp", "aug"}:
+        return True
+    return lang == "java" and "lit_tree" in sh
+
+
 def compare(progs, ev, outs, st, breaks, skip=lambda lang, prog: False):
     """st: running statistics dict; breaks: {"leg1": [...], "leg1b": [...]};
     skip(lang, prog): the real rows of this program are known not to be what the frontend would emit for its source
@@ -31,6 +41,10 @@ def compare(progs, ev, outs, st, breaks, skip=lambda lang, prog: False):
             if skip(l, p):
                 st.setdefault(l + ":skipped_known_grammar_misparse", 0)
                 st[l + ":skipped_known_grammar_misparse"] += 1
+                continue
+            if unmodelled(l, p):
+                st.setdefault(l + ":outside_modelled_renderings", 0)
+                st[l + ":outside_modelled_renderings"] += 1
                 continue
             cj = c02gen.core_json(p)
             reqs.append({"m": "lowercore", "prog": cj, "lang": l, "variant": "current"})
@@ -66,7 +80,8 @@ def compare(progs, ev, outs, st, breaks, skip=lambda lang, prog: False):
             mxo = [(o["out"], o["result"]) for o in mx["ok"]]
             if c01.same_all(mxo, ev[i]):
                 s["leg1b_equal"] += 1
-            elif c02gen.shapes(p) & {"boolop", "while_continue"}:
+            elif c02gen.shapes(p) & {"boolop", "while_continue"} or (l != "python" and "div" in c02gen.shapes(p)):
+                # (`/` in the model's rows of Java, Go, C: integer division only by the harness-side reading of the language)
                 s["leg1b_diff_known_shape"] += 1
             else:
                 s["leg1b_diff"] += 1
